@@ -304,7 +304,7 @@ class History:
                 elif key == 'epic':
                     f['epic'] = '' if (mode == 'json' and rng.random() < 0.25) else self.some_id('epic')
                 elif key == 'state':
-                    f['state'] = rng.choice(STATES + ['bogus'] if rng.random() < 0.05 else STATES)
+                    f['state'] = rng.choice(STATES + ['bogus'] if rng.random() < 0.05 else (self.profile or {}).get('states', STATES))
                 elif key == 'claim':
                     f['claim'] = rng.choice(AGENTS + (['', ''] if mode == 'json' else []))
                 elif key == 'result':
@@ -355,41 +355,51 @@ class History:
             doc['title'] = '  '
         return doc
 
+    WEIGHTS = {'new': 24, 'set': 30, 'claim': 12, 'seq': 13, 'seqrm': 3, 'plan': 5, 'prune': 6, 'compact': 4,
+               'malformed': 3}
+    profile = None
+
     def gen_request(self):
         rng = self.rng
-        x = rng.random()
-        agent = rng.choice(AGENTS) if rng.random() < 0.8 else None
-        if x < 0.24 or not self.snap['tasks']:
+        w = dict(self.WEIGHTS)
+        if self.profile:
+            w.update(self.profile.get('weights', {}))
+        agent = rng.choice(AGENTS) if rng.random() < (self.profile or {}).get('agent_p', 0.8) else None
+        if not self.snap['tasks']:
+            kind = 'new'
+        else:
+            kinds = list(w)
+            kind = rng.choices(kinds, [w[k] for k in kinds])[0]
+        if kind == 'new':
             is_epic = rng.random() < 0.27
             mode = rng.choice(['json', 'json', 'flags', 'stdin'])
             return Req(k='new', epic=is_epic, mode=mode, fields=self.gen_fields(True, is_epic, mode), agent=agent)
-        if x < 0.54:
+        if kind == 'set':
             mode = rng.choice(['json', 'json', 'json', 'flags', 'stdin'])
             f = self.gen_fields(False, False, mode)
             if mode == 'stdin' and 'body' not in f:
                 f['body'] = rng.choice(BODIES)
             return Req(k='set', epic=False, id=self.some_id('any' if rng.random() < 0.15 else 'task'), mode=mode, fields=f,
                        agent=agent)
-        if x < 0.66:
+        if kind == 'claim':
             if rng.random() < 0.5:
                 return Req(k='claim', id=self.some_id('task'), agent=agent)
             return Req(k='claim', id=None, in_epic=(self.some_id('epic') if rng.random() < 0.3 else None), agent=agent)
-        if x < 0.79:
+        if kind == 'seq':
             n = rng.choice([2, 2, 2, 3, 3, 4, 1])
-            kind = 'epic' if rng.random() < 0.25 else 'task'
-            return Req(k='seq', ids=[self.some_id(kind) for _ in range(n)])
-        if x < 0.82:
-            # prefer removing an existing edge
+            kk = 'epic' if rng.random() < 0.25 else 'task'
+            return Req(k='seq', ids=[self.some_id(kk) for _ in range(n)])
+        if kind == 'seqrm':
             edges = [(t['id'], d) for t in self.snap['tasks'] for d in t['deps']]
             if edges and rng.random() < 0.7:
                 frm, to = rng.choice(edges)
                 return Req(k='seqrm', a=to, b=frm)
             return Req(k='seqrm', a=self.some_id(), b=self.some_id())
-        if x < 0.87:
+        if kind == 'plan':
             return Req(k='plan', doc=self.gen_plan())
-        if x < 0.93:
+        if kind == 'prune':
             return Req(k='prune', yes=rng.random() < 0.7, agent=agent)
-        if x < 0.97:
+        if kind == 'compact':
             return Req(k='compact')
         which = rng.choice(['badjson', 'unknownkey', 'twovalues', 'emptystdin', 'noargs'])
         tgt = ['new', 'task'] if rng.random() < 0.5 else ['set', self.some_id('task')]
